@@ -96,6 +96,7 @@ kfs_harness! {
         t1.mt_s = s1; t1.mt_ns = n1;
         let i0 = kfs::install(kfs::D_WT, kfs::S_T0, t0);
         let i1 = kfs::install(kfs::D_WT, kfs::S_OLD, t1);
+        kfs::begin_op(kfs::OP_CLEANUP_TEMP, 0, 0, 0);
         let r = cleanup_temporary_directory(Cow::from(kfs::path_of(kfs::D_WT, kfs::NONE)));
         assert!(r.is_ok(), "KV-C05: temp cleanup succeeds");
         let st = kfs::k();
